@@ -1189,6 +1189,8 @@ def run(ctx):
     from . import modes
     modes.run(ctx, "C03.12")
     bounded_int(ctx)
+    from . import wslint
+    wslint.run(ctx, "C03.16")
     html_namespace_tests(ctx)
     dispatch_total(ctx)
     from . import c03_tok
